@@ -369,10 +369,68 @@ This decides `no new unaudited panic/recursion/loop site`, the enumerated necess
     loops(m, ctx);
     withdraw(m, ctx);
     acyclic(m, ctx);
+    slice_totality(m, ctx);
     // the generators treat notations the linker expands (selection types, COMPONENTS OF) as unreachable!(): the order of
     // the linking steps is what guarantees that none survives (shared with C09.order)
     crate::rules::c09::order(m, ctx, "C08.order");
     filter_converter(m, ctx);
+}
+
+/// C08.slice: the excerpt helper behind contextualize() slices the source text by byte counts. It is evaluated on texts
+/// with leading white space and multi-byte characters at every place a cut can fall (text shorter / longer than the
+/// fallback length, error at the start / at the end); a slice that is out of range or not on a character boundary is a
+/// panic while *rendering* an error.
+fn slice_totality(m: &Model, ctx: &mut Ctx) {
+    use crate::eval::{Env, Evaluator, Val};
+    use crate::rules::util::const_resolver;
+    let Some(f) = m.fns.iter().find(|f| f.name == "until_next_unindented" && f.module.starts_with("lexer")) else {
+        ctx.fail_closed("C08.slice", "anchor not found: lexer::util::until_next_unindented");
+        return;
+    };
+    ctx.func(&f.key);
+    let consts = const_resolver(m);
+    let hook = |_: &Evaluator, name: &str, a: &[Val]| -> Option<Result<Val, String>> {
+        match (name, a.first()) {
+            (".unwrap_or_default", Some(Val::Ctor(n, _, _))) if n == "None" => Some(Ok(Val::Str(String::new()))),
+            _ => None,
+        }
+    };
+    let ev = Evaluator { consts: &consts, call_hook: &hook, inline: None };
+    let params: Vec<String> = f.sig.inputs.iter().filter_map(|a| match a { syn::FnArg::Typed(t) => Some(tok(&t.pat)), _ => None }).collect();
+    let mut n = 0;
+    let mut reported = false;
+    let bodies = ["abc\u{b0}".to_string(), "\u{b0}\u{b0}\u{b0}\u{b0}".to_string(), "a\u{20ac}b".to_string(), "T ::= INTEGER -- in \u{b0}".to_string(), "\u{e9}".repeat(200), format!("{}\u{20ac}", "x".repeat(298)), "\u{1F600}".repeat(80)];
+    'outer: for lead in ["", " ", "  ", "\n\n  ", "\t"] {
+        for body in &bodies {
+            for tail in ["", "\n", "  "] {
+                let text = format!("{}{}{}", lead, body, tail);
+                for at in [0usize, text.len()] {
+                    for fallback in [1usize, 2, 3, 5, 300] {
+                        n += 1;
+                        let mut env = Env::new();
+                        env.insert(params.first().cloned().unwrap_or("input".into()), Val::Str(text.clone()));
+                        env.insert(params.get(1).cloned().unwrap_or("at_least_until".into()), Val::int(at as i128));
+                        env.insert(params.get(2).cloned().unwrap_or("fallback_len".into()), Val::int(fallback as i128));
+                        match ev.eval_fn_body(&f.block, &mut env) {
+                            Ok(_) => {}
+                            Err(e) if e.contains("would panic") || e.contains("out of range") || e.contains("overflow") => {
+                                if reported { continue; }
+                                reported = true;
+                                ctx.violate("C08.slice", "until_next_unindented", &f.file, f.line,
+                                    &format!("until_next_unindented({:?} [{} bytes], {}, {}) panics: {} — contextualize() of a lexer error then panics instead of rendering it", text.chars().take(24).collect::<String>(), text.len(), at, fallback, e));
+                            }
+                            Err(e) => {
+                                ctx.fail_closed("C08.slice", &format!("[until_next_unindented {} bytes at {} fallback {}]: {}", text.len(), at, fallback, e));
+                                break 'outer;
+                            }
+                        }
+                    }
+                }
+            }
+        }
+    }
+    ctx.oblige("C08.slice", "until_next_unindented", true);
+    ctx.floor("C08.slice/evaluations", n, 500);
 }
 
 /// C08.acyclic: the resolvers that follow type references (classes baseline in audit/recursion.json) end because a chain
